@@ -76,6 +76,11 @@ def generate(seed: int, tier: str) -> Dict[str, Any]:
                 # containers two and three levels below the record (per-graph totals, lists inside them)
                 payload["deep"] = {"per_graph": {"g1": {"seen": [r.randint(0, 9)], "n": r.randint(0, 9)}}, "rows": [[r.randint(0, 9)], {"k": [1]}]}
             logs.append({"stream": r.choice(STREAMS), "payload": payload})
+            if r.chance(0.12):
+                logs.append(copy.deepcopy(logs[-1]))   # the same record logged twice in a row (a heartbeat, a retried emit): two lines
+        if r.chance(0.2):
+            # a record that names no agent, the same from every agent that logs it (a status line on a quiet stream)
+            logs.insert(r.randint(0, len(logs)), {"stream": r.choice(["health.jsonl", "t2.jsonl"]), "payload": {"code": "OK", "msg": "x"}})
         agents.append({"id": a, "graphs": sorted(r.sample(GRAPHS, r.randint(0, 3))), "logs": logs, "text": E.gen_text(r),
                        # how the agent's graph set is declared in the state (the driver accepts several forms)
                        "decl": r.choice(["gba", "gba", "agents", "both", "meta_plus_gba", "agents_obj"]),
